@@ -62,7 +62,7 @@ Proof. reflexivity. Qed.
 Lemma vmdk_sig_outside_F1 b : zone_vmdk_text b = false -> sigb F_vmdk b = prefixb VMDK_MAGIC b.
 Proof.
   intros Hz. cbn [sigb]. destruct (prefixb VMDK_MAGIC b) eqn:Hp; [reflexivity|]. cbn [orb].
-  destruct (text_head b) eqn:Ht; [|reflexivity]. exfalso.
+  destruct (text_head b) eqn:Ht; [|reflexivity]. cbn [andb]. destruct (occ b); [|reflexivity]. exfalso.
   unfold text_head in Ht. apply andb_true_iff in Ht. destruct Ht as [H1 H2].
   assert (Hk : beq (btake 4 b) VMDK_MAGIC_PP = false).
   { rewrite prefixb_btake in Hp. exact Hp. }
